@@ -189,10 +189,14 @@ pub fn draw_plan(r: &mut Rng, gp: &GenParams, present_defs: &[usize], defs: &[De
     let n = present_defs.len();
     if n > 0 && r.chance(gp.p_fail, 1000) {
         let k = 1 + r.below(2.min(n));
+        let by_ordinal = r.chance(1, 2);
         for _ in 0..k {
-            let d = *r.pick(present_defs);
             let leave = *r.pick(&[Leave::Garbage, Leave::Garbage, Leave::Untouched, Leave::Removed]);
-            plan.fail.insert(d, leave);
+            if by_ordinal {
+                plan.fail_started.insert(r.below(n.min(5)) as u32, leave);
+            } else {
+                plan.fail.insert(*r.pick(present_defs), leave);
+            }
         }
     }
     if r.chance(gp.p_abort, 1000) {
@@ -245,10 +249,41 @@ pub fn generate(seed: u64, gp: &GenParams) -> Scenario {
     let cfg = if !gp.allow_semantic { Config { cmp: Cmp::Exact, names: Names::JobIds, noise: false } } else { cfg };
     // ---- defs
     let mut r = root.fork("defs");
-    let n_defs = 1 + r.below(gp.max_jobs);
+    // shape: 0 = random dag, 1 = chain-like (deep, Ephemeral-heavy), 2 = layered
+    let shape = {
+        let mut rs = root.fork("shape");
+        match rs.below(10) {
+            0..=5 => 0,
+            6 | 7 => 1,
+            _ => 2,
+        }
+    };
+    let n_defs = if shape == 0 { 1 + r.below(gp.max_jobs) } else { 3 + r.below(gp.max_jobs.saturating_sub(2).max(1)) };
+    let layer_w = 2 + r.below(2);
     let mut defs = Vec::new();
     for i in 0..n_defs {
-        let kind = [Kind::Always, Kind::Output, Kind::Ephemeral][r.weighted(&gp.kind_w)];
+        let kind_w = match shape {
+            1 => {
+                if i == n_defs - 1 {
+                    [0, 1, 0]
+                } else if i == 0 {
+                    [3, 2, 3]
+                } else {
+                    [1, 2, 7]
+                }
+            }
+            2 => {
+                if i < layer_w {
+                    [4, 2, 2]
+                } else if i + layer_w >= n_defs {
+                    [0, 1, 0]
+                } else {
+                    [0, 3, 5]
+                }
+            }
+            _ => gp.kind_w,
+        };
+        let kind = [Kind::Always, Kind::Output, Kind::Ephemeral][r.weighted(&kind_w)];
         let multi = kind != Kind::Always && r.chance(gp.p_multi, 1000);
         let universe: Vec<String> = if multi {
             let k = 2 + r.below(2);
@@ -284,7 +319,26 @@ pub fn generate(seed: u64, gp: &GenParams) -> Scenario {
             let dens = (gp.edge_density * 4 / (n_defs + 3)).clamp(80, 600);
             for down in 1..n_defs {
                 for up in 0..down {
-                    if r.chance(dens, 1000) {
+                    let p = match shape {
+                        1 => {
+                            if up + 1 == down {
+                                850
+                            } else {
+                                dens / 4
+                            }
+                        }
+                        2 => {
+                            // previous layer only
+                            let (ld, lu) = (down / layer_w, up / layer_w);
+                            if ld == lu + 1 {
+                                550
+                            } else {
+                                0
+                            }
+                        }
+                        _ => dens,
+                    };
+                    if r.chance(p, 1000) {
                         edits.push(Edit::AddEdge { down, up, consumed: draw_consumed(&mut r, &cfg, defs[up].universe.len()) });
                     }
                 }
